@@ -188,7 +188,7 @@ pub fn def() -> PropDef {
         title: "Search ignores letter case, Unicode composition form and the language's accents",
         rule: "random worlds (1-6 records, any limit) whose titles and base query are rewritten with precomposed letters only; per base query five variants over random subsets of positions: other-case form (letters whose case mapping is one-to-one and round-trips; ß/ẞ excluded), inventory letters of the store's language written base + combining mark, inventory letters folded (ö→o, ß→ss, œ→oe, ё→е ...), 1-3 split-class separators prefixed, re-case and decompose together; plus the same titles stored decomposed. Inventories and decompositions are the pinned tables of the language at this commit. Oracle: exact equality of hit lists and highlighted titles. Non-trivial = some variant differs from the base and the base query has >= 1 hit; distinct = distinct case",
         assumptions: &["pinned per-language inventories: harness/src/tables.rs"],
-        spaces: vec![Space { name: "world", decode, plan: |t| Plan::Random(t.n(50_000, 1_500_000)) }],
+        spaces: vec![Space { name: "world", decode, plan: |t| Plan::Random(t.n(200_000, 3_000_000)) }],
         differential: false,
     }
 }
